@@ -15,14 +15,14 @@ RULE = (
     "extended-field boundaries) decoded and compared on values, (c) every single-byte substitution / truncation / "
     "insertion / deletion of valid datagrams plus random strings, checked for totality and round trip, (d) the same "
     "bytes pushed through both receive paths, (e) well-formed datagrams of 0 .. 65 kB (dense around 4096) written to a real datagram socket and read by "
-    "aiocoap's recvmsg transport into the udp6 receive path: dispatched as the message they are, or not at all. A case is non-trivial when it has at least one option, a token, a payload "
+    "aiocoap's recvmsg transport into the udp6 receive path: dispatched as the message they are when the transport read them in full, as that or not at all otherwise. A case is non-trivial when it has at least one option, a token, a payload "
     "or is a mutation; distinct = distinct (class, header shape, option delta/length classes, payload class, outcome) signatures"
 )
 ASSUMPTIONS = [
     "harness/refcodec.py is a correct reading of RFC 7252 section 3 (self-tested on RFC examples each run)",
     "value legality per format: strings are valid UTF-8 text, uints non-negative, block = (num < 2^20, more, szx 0..7)",
 ]
-REQUIRED_MONITORS = {"forward_bytes": 100, "forward_decode": 100, "backward_values": 100, "totality": 1000, "rx_udp6": 100, "rx_generic": 100, "accepted_in_domain": 1000, "rx_socket": 300, "rx_socket_above_4096": 100}
+REQUIRED_MONITORS = {"forward_bytes": 100, "forward_decode": 100, "backward_values": 100, "totality": 1000, "rx_udp6": 100, "rx_generic": 100, "accepted_in_domain": 1000, "rx_socket": 300, "rx_socket_above_4096": 100, "rx_socket_complete": 100, "rx_socket_complete_at_buffer_size": 5}
 EXHAUSTIVE = {"single_byte_substitution": "all 256 values at every offset of each base datagram <= 24 bytes", "truncation": "every prefix length of every base datagram", "ext_field_grid": "delta x length over {0,1,12,13,14,268,269,270,65803,65804}"}
 
 STRING = {3, 8, 11, 15, 20, 35, 39}
@@ -349,6 +349,13 @@ class Checker:
             if got != want:
                 what = "truncated" if len(got[5]) < len(want[5]) and want[5].startswith(got[5]) and got[:5] == want[:5] else "other"
                 rep.violation("rx/udp6-socket-dispatches-different-message/" + what, "a well-formed datagram read from the socket was dispatched as a different message (%d of %d payload bytes)" % (len(got[5]), len(want[5])), {"datagram_length": len(data), "read_by_transport": received, "head": data[:40].hex(), "got": repr(got)[:300]}, case)
+        if received and received[0][0] == len(data):
+            # the transport read the datagram in full: there is nothing that entitles it to lose a well-formed message
+            rep.monitor("rx_socket_complete")
+            if len(data) >= 4096:
+                rep.monitor("rx_socket_complete_at_buffer_size")
+            if not dispatched:
+                rep.violation("rx/udp6-socket-drops-complete-datagram", "a well-formed datagram that the transport had read in full (%d bytes) was not dispatched" % len(data), {"datagram_length": len(data), "read_by_transport": received, "head": data[:40].hex()}, case)
         rep.count("rx_socket_dispatched" if dispatched else "rx_socket_dropped")
 
     @staticmethod
@@ -625,7 +632,7 @@ def run_shard(shard, rep, only=None):
             if want(case):
                 ck.total(data, "rand", case)
         # ---- (e) sizes through the real socket receive path ------------------------
-        sizes = [0, 1, 100, 1024, 1152, 1280, 1500, 2048, 4000, 4080, 4090, 4095, 4096, 4097, 4100, 5000, 8192, 9000, 16384, 40000, 65000, 65400]
+        sizes = [0, 1, 100, 1024, 1152, 1280, 1500, 2048, 4000, 4080, 4090, 4095, 4096, 4096, 4096, 4097, 4100, 5000, 8192, 9000, 16384, 40000, 65000, 65400]
         for i in range(max(40, n // 50)):
             case = ["sock", i]
             if not want(case):
